@@ -70,8 +70,9 @@ class OpenerMonitor(Monitor):
         self.openers.append(got)
         op = s.street.opening.name
         if got != exp:
-            ups = {i: list(s.get_up_cards(i)) for i in s.player_indices
-                   if s.statuses[i]}
+            ups = {i: [c for c, u in zip(s.hole_cards[i],
+                                         s.hole_card_statuses[i]) if u]
+                   for i in s.player_indices if s.statuses[i]}
             ctx.violate(
                 f'round on street {s.street_index} ({op}) opened by player '
                 f'{got}, model says {exp} (designated '
@@ -144,7 +145,7 @@ def gen_kwargs(rng):
     return dict(
         games=gen.STUD_GAMES if stud else tuple(
             g for g in gen.ALL_GAMES if g not in gen.STUD_GAMES),
-        customs=('stud5', 'openstud') if stud else ('greek', 'draw5', 'kuhn', 'random'),
+        customs=('stud5', 'openstud', 'studdraw2') if stud else ('greek', 'draw5', 'kuhn', 'random'),
         p_custom=0.15,
         chip_types=('int', 'int', 'int', 'Fraction', 'float', 'Decimal'),
         max_boards=1, strict_p=0.85,
@@ -157,7 +158,7 @@ def pol_tweak(pol, cfg, rng):
         pol['fork_p'] = 0.03     # continue on a deepcopy mid-hand
     pol['policy'] = rng.choice(['passive', 'passive', 'uniform', 'aggressive',
                                 'allin'])
-    stud = cfg.get('game') in gen.STUD_GAMES or cfg.get('template') in ('stud5', 'openstud')
+    stud = cfg.get('game') in gen.STUD_GAMES or cfg.get('template') in ('stud5', 'openstud', 'studdraw2')
     pol['deal'] = 'fewranks' if stud and rng.random() < 0.8 else 'default'
 
 
@@ -165,7 +166,7 @@ def cfg_filter(cfg, rng):
     if not cfg['strict'] and cfg['mode'] != 'CASH_GAME':
         cfg['strict'] = True      # lenient = cash game with warned folds
     # dealing must be manual for the rigged up-cards
-    stud = cfg.get('game') in gen.STUD_GAMES or cfg.get('template') in ('stud5', 'openstud')
+    stud = cfg.get('game') in gen.STUD_GAMES or cfg.get('template') in ('stud5', 'openstud', 'studdraw2')
     if stud and rng.random() < 0.85:
         cfg['autos'] = [a for a in cfg['autos'] if a != 'HOLE_DEALING']
     return cfg
